@@ -195,7 +195,7 @@ Definition do_copy (st : state) (i : nat) : state :=
 
 (* ---- indices *)
 Inductive index := ISlice (a b c : option Z) | IList (l : list Z) | IMask (m : list bool).
-Inductive err := EIndex | EValue | EStopIteration | EBadSeq.
+Inductive err := EIndex | EValue | EStopIteration | EBadSeq | EType.
 Inductive res (A : Type) := Ok (a : A) | Err (e : err).
 Arguments Ok {A}. Arguments Err {A}.
 
@@ -334,6 +334,11 @@ Inductive op :=
   | ODrop (i : nat)
   | OOpSeq (i : nat) (g : fn2) (j : nat) (inplace : bool) (dtchg : bool)
   | OAppendBad (i : nat)            (* append of a non-empty element with another trailing shape *)
+  | OOpRefused (i : nat) (oj : option nat)
+      (* IN-PLACE operator (scalar operand: None; ArraySequence operand: Some j) whose result dtype NumPy cannot
+         cast (casting='same_kind') to the dtype of the target's buffer, e.g. int64 += float64, bool += int:
+         numpy UFuncTypeError (a TypeError).  Which dtypes meet is decided by the harness from NumPy's promotion
+         rule, like the dtchg flag of OOp / OOpSeq; the model has no dtype component. *)
   | OShrink (i : nat)               (* shrink_data() called directly *)
   | OConcat1 (js : list nat)        (* concatenate(seqs, axis=1) *)
   | OGetCols (i : nat) (ix : index) (* seq[idx, cols]: a column view of the selected elements *)
@@ -507,6 +512,22 @@ Definition step (st : state) (o : op) : state * result :=
       | [], None => (st, RErr EBadSeq)
       | _, _ => (st, RErr EValue)
       end
+    else (st, RErr EBadSeq)
+  | OOpRefused i oj =>
+    (* _op(inplace=True): _check_shape (ValueError) and next(elements) (StopIteration on an empty target) come
+       first; then `self._data[o1:o1+l1].__iop__(value)` on the FIRST element raises before anything is written *)
+    if is_live st i && match oj with None => true | Some j => is_live st j end then
+      let s := getseq st i in
+      let bad_shape := match oj with
+                       | None => false
+                       | Some j => let t := getseq st j in
+                                   negb (length (lens s) =? length (lens t)) || negb (sum (lens s) =? sum (lens t))
+                       end in
+      if bad_shape then (st, RErr EValue)
+      else match offs s with
+           | [] => (st, RErr EStopIteration)
+           | _ => (st, RErr EType)
+           end
     else (st, RErr EBadSeq)
   | OShrink i =>
     (* inside a cached build shrink_data() would cut the pending rows (API misuse: "append can assume
